@@ -49,7 +49,7 @@ reg(C18Check(
     coq_targets=["Client/ClientCheck.vo", "Client/ClientProofs.vo", "Client/ClientProofs2.vo", "Client/ClientProofs3.vo", "Client/ClientProofs4.vo", "Client/ClientProofs5.vo", "Props/C18.vo"],
     assumptions=[
         "transport (Impl) hypothesis: the constructor and Impl.Subscribe fail on an already cancelled context and return once it is cancelled; a Recv that blocks returns an error once its context is cancelled or the Impl is closed, a quiet one (blockq) only once the Impl is closed -- termination with quiet streams is claimed for re-subscribe situations (a transport was installed before), not for a Close landing between Impl.Subscribe and the install of the very first connect; every other transport call and every application callback returns (for the real client/gnmi constructor this is checked by the dial family: silent / refusing / closing TCP targets, Close and cancel during the dial, watchdog)",
-        "any number of Subscribe and Close calls on one client, in any order: Subscribe calls are sequential among themselves, Close calls sequential among themselves, a Close may overlap a Subscribe at any point (ReconnectClient and bare clients); on a bare Base/Cache client a new Subscribe is not started while a Close call is still in progress; single registered client type; one caller context shared by the Subscribe calls; the NotificationHandler returns nil",
+        "any number of Subscribe, Close and Poll calls on one client, in any order (one poller goroutine; Poll rounds may be outstanding when Close arrives; the transport's own Close may return errors): Subscribe calls are sequential among themselves, Close calls sequential among themselves, a Close may overlap a Subscribe at any point (ReconnectClient and bare clients); on a bare Base/Cache client a new Subscribe is not started while a Close call is still in progress; single registered client type; one caller context shared by the Subscribe calls; the NotificationHandler returns nil",
         "the critical sections of p.mu / c.mu are atomic steps of the model; this is checked dynamically only (Go race detector pass on Close racing Subscribe)",
         "backoff durations are abstracted to 'some positive delay' (cenkalti/backoff is not modelled); real-time bounds are measured, not proved",
     ],
